@@ -2,7 +2,7 @@
    operators compute.  All 18 binary/comparison/logical operators, both unary operators, all
    integer kind pairs, all operand values for which the plain expression is defined, all
    operand-wrapper combinations.  Statements only. *)
-From RLBoxV Require Import Ops Ops_proofs Conv_proofs.
+From RLBoxV Require Import Ops Ops_proofs Conv_proofs FloatCmp FloatCmp_proofs.
 Local Open Scope Z_scope.
 
 (* with tainted / plain operands on either side the wrapped operator yields exactly the type
@@ -60,3 +60,28 @@ Theorem C16_postdec_before_fix_refuted :
   cincdec true true IInt 10 = Some (10, 9) /\
   wincdec abi_host false true true WT IInt 10 = Some (Ok (Some (10, 9))).
 Proof. exact postdec_before_fix_refuted. Qed.
+
+(* floating-point operands (float, double, as their IEEE bit patterns; exact values; NaN unordered):
+   comparisons with any operand wrappers are the C++ comparisons of the values; the mirrored form used when the
+   plain operand is on the left is always right, while DERIVING <= / >= by negating the mirrored strict comparison
+   is right exactly for ordered operands and wrong for a NaN *)
+Theorem C16_float_compare : forall op wa a wb b, wfcompare op wa a wb b = fcompare op a b.
+Proof. reflexivity. Qed.
+Theorem C16_float_mirror : forall a b,
+  fcompare FLt a b = fcompare FGt b a /\ fcompare FLe a b = fcompare FGe b a /\
+  fcompare FGt a b = fcompare FLt b a /\ fcompare FGe a b = fcompare FLe b a /\
+  fcompare FEq a b = fcompare FEq b a /\ fcompare FNe a b = fcompare FNe b a.
+Proof. exact fcompare_mirror. Qed.
+Theorem C16_float_le_ge_ne : forall a b,
+  fcompare FLe a b = fcompare FLt a b || fcompare FEq a b /\
+  fcompare FGe a b = fcompare FGt a b || fcompare FEq a b /\
+  fcompare FNe a b = negb (fcompare FEq a b).
+Proof. intros. split; [apply fcompare_le_split | split; [apply fcompare_ge_split | apply fcompare_ne]]. Qed.
+Theorem C16_float_negating_only_when_ordered : forall op a b,
+  fcmp3 a b <> None -> wfcompare_negating op a b = fcompare op a b.
+Proof. exact negating_ok_iff_ordered. Qed.
+Theorem C16_float_negating_refuted : exists a b,
+  wfcompare_negating FLe a b <> fcompare FLe a b /\ wfcompare_negating FGe a b <> fcompare FGe a b.
+Proof. exact negating_refuted. Qed.
+Print Assumptions C16_float_mirror.
+Print Assumptions C16_float_negating_only_when_ordered.
